@@ -407,8 +407,9 @@ def setProducer (n : Nat) (v : Nat) : M Unit := do
   let vs ← readVal v
   setCell v (.val { vs with producer := some n })
 
-/-- `Cloner._remap_device_configurations` (`_cloner.py` 233-262) with no `None` entries in the
-    value map -/
+/-- `Cloner._remap_device_configurations` (`_cloner.py`) with no `None` entries in the map.  Since
+    the fix of D350 `clone_node` passes the correspondence of the node's OWN inputs and outputs
+    (`ioMap`), not the cloner's global value map. -/
 def remapSpec (vm : List (Nat × Nat)) (sp : DevSpec) : DevSpec :=
   match sp.value with
   | none => sp
@@ -421,6 +422,14 @@ def remapDev (vm : List (Nat × Nat)) (d : List DevCfg) : List DevCfg :=
   d.map fun c => { c with specs := c.specs.map (remapSpec vm) }
 
 def getVm : M (List (Nat × Nat)) := fun s => (.ok s.vm, s)
+
+/-- `io_map` of `clone_node`: `io_map[input] = new_input` for every non-`None` input, then
+    `io_map[output] = new_output` (a later assignment wins: outputs first in this lookup list) -/
+def ioMap (ins newIns : List (Option Nat)) (outs newOuts : List Nat) : List (Nat × Nat) :=
+  outs.zip newOuts ++ (ins.zip newIns).filterMap fun p =>
+    match p.1, p.2 with
+    | some a, some b => some (a, b)
+    | _, _ => none
 
 /-- `new_node = _core.Node(...)`; `self._created_nodes.append(new_node)` -/
 def allocNode (c : NodeS) : M Nat := do
@@ -439,10 +448,10 @@ def cloneNode (allow : Bool) (rec : Nat → M Nat) (n : Nat) : M Nat := do
   let props ← copyProps ns.props
   let mstore ← copyMeta ns.mstore
   let outs ← cloneOutputs 0 ns.outputs
-  let vm ← getVm
   let n' ← allocNode { name := ns.name, doc := ns.doc, domain := ns.domain, opType := ns.opType,
                        overload := ns.overload, version := ns.version, inputs := newInputs,
-                       outputs := outs, attrs := dictOf newAttrs, dev := remapDev vm ns.dev,
+                       outputs := outs, attrs := dictOf newAttrs,
+                       dev := remapDev (ioMap ns.inputs newInputs ns.outputs outs) ns.dev,
                        props := props, mstore := mstore }
   forM' (setProducer n') outs
   addUses n' 0 newInputs
@@ -1216,5 +1225,402 @@ def serGraph : Nat → World → Nat → Option SGraph
   | 0, _, _ => none
   | k + 1, w, g => serGraphStep (serGraph k w) w g
 
+
+/-! ### the extended editing alphabet (deepening round 3): graph inputs, the initializer mapping,
+`sort`, `insert_before/after`, `replace_all_uses_with`, `resize_inputs/outputs`, `model.functions` -/
+
+inductive Edit2 where
+  /-- an editing call of the first alphabet -/
+  | base (e : Edit)
+  /-- `graph.inputs.append(v)` (`_graph_containers.py` `_GraphIO.append`, `GraphInputs._set_graph`) -/
+  | appendInput (g v : Nat)
+  /-- `graph.inputs.pop()` (`_GraphIO.pop`, `GraphInputs._maybe_unset_graph`) -/
+  | popInput (g : Nat)
+  /-- `graph.initializers[key] = v` (`GraphInitializers.__setitem__`) -/
+  | setInit (g : Nat) (key : String) (v : Nat)
+  /-- `del graph.initializers[key]` (`GraphInitializers.__delitem__`) -/
+  | delInit (g : Nat) (key : String)
+  /-- `graph.register_initializer(v)` (`_core.py` `Graph.register_initializer`) -/
+  | registerInit (g v : Nat)
+  /-- `graph.sort()` (`_core.py` `Graph.sort`) on a graph whose nodes hold no subgraphs -/
+  | sort (g : Nat)
+  /-- `graph.insert_before(anchor, n)` -/
+  | insertBefore (g anchor n : Nat)
+  /-- `graph.insert_after(anchor, n)` -/
+  | insertAfter (g anchor n : Nat)
+  /-- `v.replace_all_uses_with(r, replace_graph_outputs=outs)` (`_core.py` `Value.replace_all_uses_with`) -/
+  | replaceAllUses (v r : Nat) (outs : Bool)
+  /-- `node.resize_inputs(k)` -/
+  | resizeInputs (n k : Nat)
+  /-- `node.resize_outputs(k)` -/
+  | resizeOutputs (n k : Nat)
+  /-- `model.functions[f.identifier()] = f`: `idx` = position of that key in the dict, `none` when new -/
+  | putFunc (m : Nat) (idx : Option Nat) (f : Nat)
+  /-- `del model.functions[key]`: `idx` = position of the key (out of range: `KeyError`) -/
+  | delFunc (m : Nat) (idx : Nat)
+  deriving Repr
+
+def Edit2.args : Edit2 → List Nat
+  | .base e => e.args
+  | .appendInput g v => [g, v]
+  | .popInput g => [g]
+  | .setInit g _ v => [g, v]
+  | .delInit g _ => [g]
+  | .registerInit g v => [g, v]
+  | .sort g => [g]
+  | .insertBefore g a n => [g, a, n]
+  | .insertAfter g a n => [g, a, n]
+  | .replaceAllUses v r _ => [v, r]
+  | .resizeInputs n _ => [n]
+  | .resizeOutputs n _ => [n]
+  | .putFunc m _ f => [m, f]
+  | .delFunc m _ => [m]
+
+/-- `_maybe_unset_graph` once the value is no longer listed: clear the flag, and forget the graph
+    unless the value is still an input, output or initializer (`Value._owned_by_graph`) -/
+def unsetOwner (g : Nat) (clear : ValueS → ValueS) (v : Nat) : M Unit := do
+  let vs ← readVal v
+  if vs.graph != some g then unsupported "value does not belong to the graph (assert)" else
+  let vs := clear vs
+  setCell v (.val (if vs.isIn || vs.isOut || vs.isInit then vs else { vs with graph := none }))
+
+/-- `assert value._graph is self._graph` -/
+def assertOwner (g v : Nat) : M Unit := do
+  let vs ← readVal v
+  if vs.graph != some g then unsupported "value does not belong to the graph (assert)" else pure ()
+
+/-- `name and key != name` -/
+def nameMismatch (vs : ValueS) (key : String) : Bool :=
+  match vs.name with
+  | some nm => nm != "" && nm != key
+  | none => false
+
+/-- `if not value.name: value.name = key` -/
+def renameIfUnnamed (v : Nat) (key : String) (vs : ValueS) : M Unit :=
+  if vs.name = none || vs.name = some "" then applyEdit0 (.setName v (some key)) else pure ()
+
+/-- `if key in self.data: self._maybe_unset_graph(self.data[key])` -/
+def unsetOldInit (g : Nat) (key : String) : M Unit := do
+  let gs ← readGraph g
+  match gs.inits.lookup key with
+  | some old => unsetOwner g (fun x => { x with isInit := false }) old
+  | none => pure ()
+
+/-- `self._set_graph(value); super().__setitem__(key, value)` -/
+def setInitFinish (g : Nat) (key : String) (v : Nat) : M Unit := do
+  let vs ← readVal v
+  if vs.graph.isSome && vs.graph != some g then raise "value owned by a different graph"
+  else do
+    setCell v (.val { vs with isInit := true, graph := some g })
+    let gs ← readGraph g
+    setCell g (.graph { gs with inits := dictSet gs.inits key v })
+
+/-- `GraphInitializers._check_item` followed by `__setitem__` -/
+def setInitCore (g : Nat) (key : String) (v : Nat) : M Unit := do
+  let gs ← readGraph g
+  if gs.view then unsupported "view" else
+  let vs ← readVal v
+  if key = "" then raise "empty key"
+  else if nameMismatch vs key then raise "key does not match the name of the value"
+  else if vs.producer.isSome then raise "produced by a node"
+  else if vs.graph.isSome && vs.graph != some g then raise "value owned by a different graph"
+  else do
+    renameIfUnnamed v key vs
+    unsetOldInit g key
+    setInitFinish g key v
+
+/-- position of a node in the node list -/
+def posOf (l : List Nat) (n : Nat) : Nat := l.findIdx (· == n)
+
+/-- the direct predecessors of a node (`Graph.sort` step 1, no subgraphs): the producer of every
+    input, with multiplicity, when it is a node of the list -/
+def sortPreds (w : World) (nodes : List Nat) (n : Nat) : List Nat :=
+  match w[n]? with
+  | some (.node ns) => ns.inputs.filterMap fun o =>
+      match o with
+      | none => none
+      | some v => match w[v]? with
+        | some (.val vs) => match vs.producer with
+          | some p => if nodes.contains p then some p else none
+          | none => none
+        | _ => none
+  | _ => []
+
+/-- `heapq.heappop` on `(-index, node)`: the queued node with the largest original index -/
+def popMax (nodes : List Nat) : List Nat → Option Nat
+  | [] => none
+  | q :: qs => some (qs.foldl (fun a b => if posOf nodes b > posOf nodes a then b else a) q)
+
+/-- steps 2-3 of `Graph.sort`: Kahn's algorithm from the sinks, largest index first -/
+def sortLoop (w : World) (nodes : List Nat) :
+    Nat → (depth : List (Nat × Nat)) → (queue : List Nat) → (sorted : List Nat) → List Nat
+  | 0, _, _, sorted => sorted
+  | fuel + 1, depth, queue, sorted =>
+    match popMax nodes queue with
+    | none => sorted
+    | some cur =>
+      let queue := queue.filter (· != cur)
+      let step := (sortPreds w nodes cur).foldl (fun (acc : List (Nat × Nat) × List Nat) p =>
+        let d := (acc.1.lookup p).getD 0 - 1
+        let depth' := acc.1.map (fun e => if e.1 == p then (p, d) else e)
+        (depth', if d == 0 then acc.2 ++ [p] else acc.2)) (depth, queue)
+      sortLoop w nodes fuel step.1 step.2 (sorted ++ [cur])
+
+def hasGraphAttr (w : World) (n : Nat) : Bool :=
+  match w[n]? with
+  | some (.node ns) => ns.attrs.any fun ka =>
+      match w[ka.2]? with
+      | some (.attr a) => (match a.v with | .graph _ => true | .graphs _ => true | _ => false)
+      | _ => true
+  | _ => true
+
+/-- a node the graph can (re-)add without inventing a name: it belongs to `g` or to no graph, and
+    it and its outputs are named -/
+def nodeAddable (w : World) (g : Nat) (n : Nat) : Except Err Unit :=
+  match w[n]? with
+  | some (.node ns) =>
+    if ns.graph.isSome && ns.graph != some g then .error (.raised "node belongs to another graph")
+    else if ns.name.isNone then .error (.unsupported "unnamed node (name authority)")
+    else if ns.outputs.all (fun o => match w[o]? with
+        | some (.val vs) => vs.name.isSome
+        | _ => false) then .ok ()
+    else .error (.unsupported "unnamed output (name authority)")
+  | _ => .error (.unsupported "not a node")
+
+/-- what `graph.sort()` leaves in `graph._nodes`: `sorted` is in reversed topological order, the
+    graph is re-extended with `reversed(sorted)` -/
+def sortOrder (w : World) (g : Nat) (gs : GraphS) : Except Err (List Nat) :=
+  let nodes := gs.nodes
+  if gs.view then .error (.unsupported "view")
+  else if nodes.any (hasGraphAttr w) then .error (.unsupported "sort with subgraphs")
+  else if !(nodes.all fun n => match w[n]? with
+      | some (.node ns) => ns.graph == some g
+      | _ => false) then .error (.unsupported "inconsistent node.graph")
+  else if !(nodes.eraseDups.length == nodes.length) then .error (.unsupported "duplicate node")
+  else
+    let preds := nodes.flatMap (sortPreds w nodes)
+    let depth := nodes.map fun n => (n, preds.count n)
+    let queue := nodes.filter fun n => preds.count n == 0
+    let sorted := sortLoop w nodes (nodes.length + 1) depth queue []
+    if sorted.length != nodes.length then .error (.raised "Graph contains a cycle")
+    else match nodes.foldl (fun (r : Except Err Unit) n =>
+        match r with
+        | .ok () => nodeAddable w g n
+        | e => e) (.ok ()) with
+      | .ok () => .ok sorted.reverse
+      | .error e => .error e
+
+/-- `DoublyLinkedSet.insert_after(anchor, [n])` / `insert_before` on the list of nodes: a node that
+    is already in the list is removed first; inserting a node next to itself changes nothing -/
+def insertRel (after : Bool) (l : List Nat) (anchor n : Nat) : List Nat :=
+  if n = anchor then l
+  else
+    let l' := l.filter (· != n)
+    l'.flatMap fun x => if x = anchor then (if after then [x, n] else [n, x]) else [x]
+
+/-- the heap, for read-only computations -/
+def getWorld : M World := fun s => (.ok s.w, s)
+
+def liftE : Except Err α → M α
+  | .ok a => pure a
+  | .error e => fail e
+
+def insertNode (after : Bool) (g anchor n : Nat) : M Unit := do
+  let gs ← readGraph g
+  if gs.view then unsupported "view" else
+  let as ← readNode anchor
+  if as.graph != some g then raise "the anchor does not belong to this graph" else
+  let w ← getWorld
+  liftE (nodeAddable w g n)
+  let ns ← readNode n
+  setCell n (.node { ns with graph := some g })
+  let gs ← readGraph g
+  if gs.nodes.contains anchor then
+    setCell g (.graph { gs with nodes := insertRel after gs.nodes anchor n })
+  else raise "anchor is not in the list"
+
+/-- `_maybe_unset_graph(v)` of `graph.outputs[i] = r`: when `v` is listed more than once only the
+    reference count drops -/
+def unsetOutput (g v : Nat) (still : Bool) : M Unit :=
+  if still then assertOwner g v else unsetOwner g (fun x => { x with isOut := false }) v
+
+/-- `_set_graph(r); data[i] = r` -/
+def setOutputAt (g i r : Nat) : M Unit := do
+  let rs ← readVal r
+  if rs.graph.isSome && rs.graph != some g then raise "value owned by a different graph" else do
+    setCell r (.val { rs with isOut := true, graph := some g })
+    let gs ← readGraph g
+    setCell g (.graph { gs with outputs := gs.outputs.set i r })
+
+/-- `graph.outputs[i] = r` (`_GraphIO.__setitem__`, single item) where `outputs[i] is v` -/
+def replaceOutputAt (g v r i : Nat) : M Unit := do
+  let gs ← readGraph g
+  let rs ← readVal r
+  if rs.graph.isSome && rs.graph != some g then raise "value owned by a different graph" else do
+    unsetOutput g v (gs.outputs.count v > 1)
+    setOutputAt g i r
+
+/-- `for i, output in enumerate(graph.outputs): if output is self: graph.outputs[i] = replacement` -/
+def replaceOutputs (g v r : Nat) : List Nat → M Unit
+  | [] => pure ()
+  | i :: is => do
+    let gs ← readGraph g
+    if (gs.outputs[i]?) = some v then do
+      replaceOutputAt g v r i
+      replaceOutputs g v r is
+    else replaceOutputs g v r is
+
+/-- the graph-output part of `Value.replace_all_uses_with` -/
+def rauwOutputs (v r : Nat) (outs : Bool) : M Unit := do
+  let vs ← readVal v
+  if vs.isOut then
+    match vs.graph with
+    | none => unsupported "graph output without a graph"
+    | some g =>
+      if !outs then raise "value is a graph output" else do
+        let gs ← readGraph g
+        replaceOutputs g v r (List.range gs.outputs.length)
+  else pure ()
+
+def clearProducer (v : Nat) : M Unit := do
+  let vs ← readVal v
+  setCell v (.val { vs with producer := none, index := none })
+
+def dropShardingOf (n : Nat) (v : Nat) : M Unit := do
+  let ns ← readNode n
+  setCell n (.node (dropSharding ns v))
+
+def checkNoUses (v : Nat) : M Unit := do
+  let vs ← readVal v
+  if vs.uses.isEmpty then pure () else raise "removed output has uses"
+
+def applyEdit2 : Edit2 → M Unit
+  | .base e => applyEdit e
+  | .appendInput g v => do
+    let gs ← readGraph g
+    if gs.view then unsupported "view" else
+    let vs ← readVal v
+    if vs.graph.isSome && vs.graph != some g then raise "value owned by a different graph"
+    else if vs.producer.isSome then raise "produced by a node"
+    else do
+      setCell v (.val { vs with isIn := true, graph := some g })
+      setCell g (.graph { gs with inputs := gs.inputs ++ [v] })
+  | .popInput g => do
+    let gs ← readGraph g
+    if gs.view then unsupported "view" else
+    match gs.inputs.getLast? with
+    | none => raise "pop from empty list"
+    | some v => do
+      let rest := gs.inputs.dropLast
+      setCell g (.graph { gs with inputs := rest })
+      if rest.contains v then assertOwner g v
+      else unsetOwner g (fun x => { x with isIn := false }) v
+  | .setInit g key v => setInitCore g key v
+  | .delInit g key => do
+    let gs ← readGraph g
+    if gs.view then unsupported "view" else
+    match gs.inits.lookup key with
+    | none => raise "KeyError"
+    | some v => do
+      unsetOwner g (fun x => { x with isInit := false }) v
+      let gs ← readGraph g
+      setCell g (.graph { gs with inits := dictErase gs.inits key })
+  | .registerInit g v => do
+    let gs ← readGraph g
+    let vs ← readVal v
+    match vs.name with
+    | none => raise "initializer must have a name"
+    | some nm =>
+      if nm = "" then raise "initializer must have a name"
+      else if (gs.inits.lookup nm).isSome && gs.inits.lookup nm != some v then
+        raise "initializer already registered"
+      else if vs.const.isNone then raise "const_value not set"
+      else setInitCore g nm v
+  | .sort g => do
+    let gs ← readGraph g
+    let w ← getWorld
+    let order ← liftE (sortOrder w g gs)
+    setCell g (.graph { gs with nodes := order })
+  | .insertBefore g anchor n => insertNode false g anchor n
+  | .insertAfter g anchor n => insertNode true g anchor n
+  | .replaceAllUses v r outs => do
+    rauwOutputs v r outs
+    let vs ← readVal v
+    forM' (fun u => applyEdit0 (.replaceInput u.1 u.2 (some r))) vs.uses
+  | .resizeInputs n k => do
+    let ns ← readNode n
+    if k = ns.inputs.length then pure ()
+    else if k < ns.inputs.length then do
+      forM' (fun i => applyEdit0 (.replaceInput n i none)) ((List.range ns.inputs.length).drop k)
+      let ns ← readNode n
+      setCell n (.node { ns with inputs := ns.inputs.take k })
+    else setCell n (.node { ns with inputs := ns.inputs ++ List.replicate (k - ns.inputs.length) none })
+  | .resizeOutputs n k => do
+    let ns ← readNode n
+    if k = ns.outputs.length then pure ()
+    else if k < ns.outputs.length then do
+      forM' checkNoUses (ns.outputs.drop k)
+      forM' clearProducer (ns.outputs.drop k)
+      let ns2 ← readNode n
+      setCell n (.node { ns2 with outputs := ns2.outputs.take k })
+      forM' (dropShardingOf n) (ns.outputs.drop k)
+    else do
+      let outs ← mkOutputs n ns.outputs.length (k - ns.outputs.length)
+      let ns ← readNode n
+      setCell n (.node { ns with outputs := ns.outputs ++ outs })
+  | .putFunc m idx f => do
+    let ms ← readModel m
+    let _ ← readFunc f
+    match idx with
+    | none => setCell m (.model { ms with funcs := ms.funcs ++ [f] })
+    | some i =>
+      if i < ms.funcs.length then setCell m (.model { ms with funcs := ms.funcs.set i f })
+      else unsupported "position out of range"
+  | .delFunc m i => do
+    let ms ← readModel m
+    if i < ms.funcs.length then setCell m (.model { ms with funcs := ms.funcs.eraseIdx i })
+    else raise "KeyError"
+
+/-- an edit history over the extended alphabet (see `runHistory`) -/
+def runHistory2 : List Edit2 → World → List (Except Err Unit) × World
+  | [], w => ([], w)
+  | e :: es, w =>
+    match run (applyEdit2 e) w with
+    | (r, w1) =>
+      match runHistory2 es w1 with
+      | (rs, w2) => (r :: rs, w2)
+
+/-- `functionalize` with a wrapped pass that uses the extended alphabet -/
+def functionalize2 (fuel : Nat) (pass : Nat → World → List Edit2) (m : Nat) (w : World) :
+    Except Err Nat × World :=
+  match run (modelClone fuel m) w with
+  | (.ok m', w1) => (.ok m', (runHistory2 (pass m' w1) w1).2)
+  | (.error e, w1) => (.error e, w1)
+
+/-- every sharding spec of the node targets one of the node's own inputs or outputs -/
+def devLocalB (n : NodeS) : Bool :=
+  n.dev.all fun c => c.specs.all fun sp =>
+    match sp.value with
+    | some v => n.inputs.contains (some v) || n.outputs.contains v
+    | none => true
+
+/-- every node of the heap has only local sharding specs (decidable; checked on every abstracted
+    real heap by the driver) -/
+def devLocalW (w : World) : Bool :=
+  w.all fun c => match c with
+    | .node n => devLocalB n
+    | _ => true
+
+/-- the pointers the calls of the extended alphabet follow from a cell, on top of `followed`:
+    graph inputs and initializers, node outputs, the users of a value -/
+def followed2 : Cell → List Nat
+  | .val v => v.uses.map (·.1)
+  | .node n => n.outputs
+  | .graph g => g.inputs ++ g.inits.map (·.2)
+  | _ => []
+
+/-- `wellFormed` for the extended alphabet -/
+def wellFormed2 (w : World) : Bool :=
+  wellFormed w && (w.all fun c => (followed2 c).all fun p => p < w.length)
 
 end IrVerif.Clone
